@@ -329,7 +329,19 @@ type pipelineStatus = pipeline.Status
 
 // c07AllEmitted: the runner's final stop waits until the source handed every record to the engine
 // (or the pipeline ended by itself), so that a loaded machine cannot cut the outcome sequence short.
+// A script with a fatal point (a rejection the window refuses, a failing DLQ write of a tolerated
+// rejection) must end the pipeline by itself: the final stop is then only the fall-back after
+// lab.Quiet of silence (a user stop racing a transient failure legitimately ends as stopped).
 func c07AllEmitted(w *lab.World, c *lab.Case) bool {
+	dec, firstRefused := c07Decisions(c, lab.BuildModel(c))
+	if firstRefused >= 0 {
+		return false
+	}
+	for q, d := range dec {
+		if o, ok := c.DLQ.PerRecord[lab.Key(0, q, 0)]; ok && o != lab.OutAck && d == 1 {
+			return false
+		}
+	}
 	n := 0
 	for _, e := range w.Log.Snapshot() {
 		if e.Kind == lab.EvSrcEmit && e.Src == 0 {
